@@ -103,7 +103,7 @@ def run(ctx):
     xref = vlib.build_engine("xrefprog", "plain")
     resp = vlib.Results()
     nshp = 32
-    lv = "LS,L2,L3,L1"
+    lv = "LS,L2,L3,L1,L5,L6"
     argsp = [["--levels", lv, "--shard", i, "--nshards", nshp] for i in range(nshp)]
     vlib.run_shards(xref, argsp, env, timeout=deadline * 1.3 + 60, res=resp, label="xrefprog")
     res.viol.extend(resp.viol)
@@ -113,8 +113,8 @@ def run(ctx):
                   "programs_outside_the_interpreter": int(resp.stats.get("ref_programs_outside_the_interpreter", 0)),
                   "elements_compared": int(resp.stats.get("ref_elements_compared", 0)),
                   "rule": "integer programs of L1, L2 (all size-compatible pairs), L3 (chains) and LS (one parameter or named constant feeding "
-                          "two instructions of different element width / prefix, both orders), 1-D, without loads that index, accumulators or "
-                          "floats; each interpreted element by element from its descriptor with ref/orcref.h (a scalar operand is the value "
+                          "two instructions of different element width / prefix, both orders), 1-D, without loads that index or floats (accumulators summed from zero modulo their width); also L5 and L6 programs;"
+                          " each interpreted element by element from its descriptor with ref/orcref.h (a scalar operand is the value "
                           "truncated to the element width of the instruction using it, x2/x4 lane-wise) and compared with the bytes "
                           "orc_executor_emulate leaves in every destination, n = 23"}
     # static part: live table vs documented table
@@ -176,7 +176,7 @@ def replay(rep):
         print("program-level finding; the whole family is re-run by bin/check C02 (engine xrefprog):", r.get("program", "")[:300])
         exe = vlib.build_engine("xrefprog", "plain")
         scratch = vlib.scratch_dir("C02r")
-        p = subprocess.run([exe, "--levels", "LS,L2,L3,L1"], stdout=subprocess.PIPE, env=vlib.scrub_env(scratch=scratch), timeout=1200)
+        p = subprocess.run([exe, "--levels", "LS,L2,L3,L1,L5,L6"], stdout=subprocess.PIPE, env=vlib.scrub_env(scratch=scratch), timeout=1200)
         shutil.rmtree(scratch, ignore_errors=True)
         bad = [l for l in p.stdout.decode().splitlines() if '"t":"viol"' in l and rep["key"] in l]
         print("\n".join(b[:500] for b in bad[:3]) if bad else "replayed without violation")
